@@ -145,7 +145,38 @@ def rw_R9(text):
     return out, n
 
 
-REWRITES = {'R11': rw_R11, 'R10': rw_R10, 'R9': rw_R9, 'R1': rw_R1, 'R2': rw_R2, 'R3': rw_R3, 'R4': rw_R4, 'R5': rw_R5, 'R8': rw_R8}
+def rw_R12(text):
+    """f(.., |a, b| EXPR)   ->   f(.., |a, b| { EXPR })   (an expression-bodied closure as the last argument gets a block body, so that
+    a contract can be attached to its header)"""
+    n = 0
+    out = text
+    pos = 0
+    while True:
+        msk = rsx.mask(out)
+        m = re.compile(r'[,(]\s*\|([^|\n]*)\|\s*(?![\s{])').search(msk, pos)
+        if not m:
+            break
+        depth = 0
+        j = m.end()
+        while j < len(msk):
+            ch = msk[j]
+            if ch in '([{':
+                depth += 1
+            elif ch in ')]}':
+                if depth == 0:
+                    break
+                depth -= 1
+            j += 1
+        if j >= len(msk) or msk[j] != ')':
+            pos = m.end()
+            continue
+        out = out[:m.end()] + '{ ' + out[m.end():j] + ' }' + out[j:]
+        pos = j + 4
+        n += 1
+    return out, n
+
+
+REWRITES = {'R12': rw_R12, 'R11': rw_R11, 'R10': rw_R10, 'R9': rw_R9, 'R1': rw_R1, 'R2': rw_R2, 'R3': rw_R3, 'R4': rw_R4, 'R5': rw_R5, 'R8': rw_R8}
 REWRITE_DOC = {
     'R1': 'for &T{f,..} in &E[a..b]  ->  for __i in a..b { let f = E[__i].f; (Verus: no ref patterns)',
     'R2': 'Some(&b) => b  ->  Some(b) => *b (Verus: no ref patterns)',
@@ -158,6 +189,7 @@ REWRITE_DOC = {
     'R9': 'RECV.map(|PAT| BODY) -> match RECV { Some(PAT) => Some(BODY), None => None } (Verus cannot reason about un-annotated closures)',
     'R10': 'for (i, x) in V.iter().enumerate() -> for i in 0..V.len() { let x = &V[i]; (Verus: no iterator adapters)',
     'R11': 'if let Some(&x) = E { -> if let Some(__r) = E { let x = *__r; (Verus: no ref patterns)',
+    'R12': 'f(.., |a, b| EXPR) -> f(.., |a, b| { EXPR }) (block body, so that a closure contract can be attached to the header)',
     'ARMSUB': 'a named match arm (delegation to regex-automata) is replaced by a call to an assumed shim; the dropped text is listed in dropped_code',
 }
 
